@@ -77,7 +77,8 @@ where
         )?;
     }
 
-    writeln!(writer, "    let url = \"{action}\";")?;
+    // the soapAction value is schema text: written as an escaped literal
+    writeln!(writer, "    let url = {:?};", action.as_str())?;
     if operation.output.is_some() {
         writeln!(writer, "    helpers::send_soap_request(url, credentials, req).await")?;
     } else {
